@@ -341,6 +341,58 @@ theorem sf_load (tab : Nat → Content) (d : Nat) (f : File) (S R' : J) (H : Lis
       · right; right; refine ⟨b, ?_⟩; rw [if_pos hok]; simp [headerLv, a]
       · left; rw [if_neg hok]
 
+/-! ### a file cut exactly at a chunk boundary reads without error — and must still not be trusted -/
+
+/-- `load` reports an error exactly when an incomplete chunk is left at the end of the file; a file cut at a chunk
+    boundary (`tail = 0`) reads without error -/
+theorem load_err_iff_tail (c : Bool) (f : File) (R' : J) (bs : List (List Entry)) (err : Bool)
+    (hl : load c f = some (R', bs, err)) : err = decide (f.tail ≠ 0) := by
+  unfold load at hl
+  split at hl
+  · simp at hl
+  · injection hl with hl; injection hl with _ h3; injection h3 with _ h4; exact h4.symm
+
+/-- C20 (reload, the header is believed only after a complete read). The file holds a STRICT prefix (at chunk
+    granularity) of the entries of the journal `Rs` that was saved — whether or not the cut left a partial chunk, i.e.
+    whether or not `load` sees an error. Then the loaderVersion the reloaded journal reports is the version of the last
+    event it actually read (its currentVersion), never the header's loaderVersion: the lost tail will be asked for again. -/
+theorem load_strict_prefix_lv (c : Bool) (f : File) (Rs R' : J) (bs : List (List Entry)) (err : Bool) (hRs : JX Rs)
+    (hpre : (f.chunks.map (·.evs)).flatten <+: Rs.entries) (hstrict : (f.chunks.map (·.evs)).flatten ≠ Rs.entries)
+    (hcur : f.cur = Rs.cur) (hl : load c f = some (R', bs, err)) : R'.lv = R'.cur := by
+  unfold load at hl
+  split at hl
+  · simp at hl
+  · rename_i j bs1 h1
+    injection hl with hl; injection hl with h2 _; subst h2
+    simp only
+    have hm := fun x => mem_loadChunks f.chunks { compact := c } j bs1 x h1
+    have hjx : JX j := (hm (mkEntry (fun _ => Content.default) 0 0)).2.2.2.2 (jx_empty c)
+    have hkeys : ((f.chunks.map (·.evs)).flatten).Pairwise (fun a b => sameKey b a = false) := by
+      refine (hRs.inv.keys.sublist hpre.sublist).imp ?_
+      intro a b hab; rw [sameKey_symm]; exact hab
+    have hin : ∀ x, x ∈ j.entries → x ∈ (f.chunks.map (·.evs)).flatten := by
+      intro x hx; rcases (hm x).1 hx with h | h
+      · exact h
+      · simp at h
+    rcases load_lv_cases f j.cur with h | ⟨_, a, _, _⟩ | ⟨a, b⟩
+    · exact h
+    · exfalso
+      obtain ⟨t, ht⟩ := hpre
+      have htne : t ≠ [] := by
+        intro h0; subst h0; simp at ht; exact hstrict ht
+      obtain ⟨x, hx⟩ := List.exists_mem_of_ne_nil t htne
+      have hxR : x ∈ Rs.entries := by rw [← ht]; exact List.mem_append_right _ hx
+      have hb := hRs.inv.bound x hxR
+      rcases hjx.last with ⟨_, h0⟩ | ⟨e, he, hv⟩
+      · have := hRs.pos x hxR; omega
+      · have hs := hRs.inv.sorted
+        rw [← ht] at hs
+        have := (List.pairwise_append.mp hs).2.2 e (hin e he) x hx
+        omega
+    · by_cases hok : headerOk f j.cur = true
+      · rw [if_pos hok]; simp [headerLv, a, b]
+      · rw [if_neg hok]
+
 /-! ### the chain: every schedule -/
 
 inductive Op2
